@@ -9,7 +9,9 @@ import Splipy.Lemmas.C03RealModel
 import Splipy.Lemmas.C03DerivSplineObj
 import Splipy.Lemmas.C03DerivSplineExist
 import Splipy.Lemmas.Smooth
-import Mathlib.Data.Real.Archimedean
+import Splipy.Lemmas.C03Frame
+import Mathlib.Analysis.Real.Sqrt
+import Mathlib.Algebra.Order.Archimedean.Real.Basic
 
 /-!
 # C03 — derivatives are the true partial derivatives of the evaluated map
@@ -46,7 +48,8 @@ out as the specification's `splineDeriv`). -/
 theorem C03_nonrational_curve {o : Obj K} {b1 : Basis K} (hb : o.bases = #[b1]) (hv1 : b1.Valid)
     {nc : ℕ} (hs : o.cps.shape = [b1.numFunctions, nc]) (hr : o.rational = false) {tol : K}
     (htol : 0 < tol) {us : List K} (hus : ∀ u ∈ us, b1.Admissible tol u) (d : ℕ) (a : Bool)
-    (tensor : Bool) :
+    (tensor : Bool)
+    (hne1 : b1.periodic < 0 → us ≠ [] := by (first | assumption | (simp; done) | skip)) :
     ∃ res, o.derivativeGeneric tol [us] [d] [a] tensor = .ok res ∧
       ∀ i c, i < us.length → c < nc →
         res.get (i * nc + c) =
@@ -67,7 +70,9 @@ theorem C03_nonrational_surface {o : Obj K} {b1 b2 : Basis K} (hb : o.bases = #[
     (hv1 : b1.Valid) (hv2 : b2.Valid) {nc : ℕ}
     (hs : o.cps.shape = [b1.numFunctions, b2.numFunctions, nc]) (hr : o.rational = false) {tol : K}
     (htol : 0 < tol) {us vs : List K} (hus : ∀ u ∈ us, b1.Admissible tol u)
-    (hvs : ∀ v ∈ vs, b2.Admissible tol v) (d1 d2 : ℕ) (a1 a2 : Bool) :
+    (hvs : ∀ v ∈ vs, b2.Admissible tol v) (d1 d2 : ℕ) (a1 a2 : Bool)
+    (hne1 : b1.periodic < 0 → us ≠ [] := by (first | assumption | (simp; done) | skip))
+    (hne2 : b2.periodic < 0 → vs ≠ [] := by (first | assumption | (simp; done) | skip)) :
     (∃ res, o.derivativeGeneric tol [us, vs] [d1, d2] [a1, a2] true = .ok res ∧
       ∀ i1 i2 c, i1 < us.length → i2 < vs.length → c < nc →
         res.get ((i1 * vs.length + i2) * nc + c) =
@@ -105,7 +110,10 @@ theorem C03_nonrational_volume {o : Obj K} {b1 b2 b3 : Basis K} (hb : o.bases = 
     (hs : o.cps.shape = [b1.numFunctions, b2.numFunctions, b3.numFunctions, nc])
     (hr : o.rational = false) {tol : K} (htol : 0 < tol) {us vs ws : List K}
     (hus : ∀ u ∈ us, b1.Admissible tol u) (hvs : ∀ v ∈ vs, b2.Admissible tol v)
-    (hws : ∀ w ∈ ws, b3.Admissible tol w) (d1 d2 d3 : ℕ) (a1 a2 a3 : Bool) :
+    (hws : ∀ w ∈ ws, b3.Admissible tol w) (d1 d2 d3 : ℕ) (a1 a2 a3 : Bool)
+    (hne1 : b1.periodic < 0 → us ≠ [] := by (first | assumption | (simp; done) | skip))
+    (hne2 : b2.periodic < 0 → vs ≠ [] := by (first | assumption | (simp; done) | skip))
+    (hne3 : b3.periodic < 0 → ws ≠ [] := by (first | assumption | (simp; done) | skip)) :
     (∃ res, o.derivativeGeneric tol [us, vs, ws] [d1, d2, d3] [a1, a2, a3] true = .ok res ∧
       ∀ i1 i2 i3 c, i1 < us.length → i2 < vs.length → i3 < ws.length → c < nc →
         res.get (((i1 * vs.length + i2) * ws.length + i3) * nc + c) =
@@ -222,6 +230,7 @@ theorem C03_derivative_snap_curve {o : Obj K} {b1 : Basis K} (hb : o.bases = #[b
   apply C03_derivative_congr _ _ _ _ _ _ _ (by simp)
   have hdomiff : o.OutOfDomain tol [us.map (snap b1 tol)] ↔ o.OutOfDomain tol [us] := by
     rw [Obj.outOfDomain1_iff hb, Obj.outOfDomain1_iff hb, exists_mem_map_snap hv1 htol hs1]
+    simp only [List.map_eq_nil_iff]
   by_cases h2 : o.OutOfDomain tol [us]
   · rw [o.validateDomain_error tol _ h2, o.validateDomain_error tol _ (hdomiff.mpr h2)]
   · rw [o.validateDomain_ok tol _ h2, o.validateDomain_ok tol _ (fun h => h2 (hdomiff.mp h))]
@@ -239,6 +248,7 @@ theorem C03_derivative_snap_surface {o : Obj K} {b1 b2 : Basis K} (hb : o.bases 
       ↔ o.OutOfDomain tol [us, vs] := by
     rw [Obj.outOfDomain2_iff hb, Obj.outOfDomain2_iff hb, exists_mem_map_snap hv1 htol hs1,
       exists_mem_map_snap hv2 htol hs2]
+    simp only [List.map_eq_nil_iff]
   by_cases h2 : o.OutOfDomain tol [us, vs]
   · rw [o.validateDomain_error tol _ h2, o.validateDomain_error tol _ (hdomiff.mpr h2)]
   · rw [o.validateDomain_ok tol _ h2, o.validateDomain_ok tol _ (fun h => h2 (hdomiff.mp h))]
@@ -258,6 +268,7 @@ theorem C03_derivative_snap_volume {o : Obj K} {b1 b2 b3 : Basis K} (hb : o.base
       ↔ o.OutOfDomain tol [us, vs, ws] := by
     rw [Obj.outOfDomain3_iff hb, Obj.outOfDomain3_iff hb, exists_mem_map_snap hv1 htol hs1,
       exists_mem_map_snap hv2 htol hs2, exists_mem_map_snap hv3 htol hs3]
+    simp only [List.map_eq_nil_iff]
   by_cases h2 : o.OutOfDomain tol [us, vs, ws]
   · rw [o.validateDomain_error tol _ h2, o.validateDomain_error tol _ (hdomiff.mpr h2)]
   · rw [o.validateDomain_ok tol _ h2, o.validateDomain_ok tol _ (fun h => h2 (hdomiff.mp h))]
@@ -289,8 +300,9 @@ theorem C03_nonrational_curve_any {o : Obj K} {b1 : Basis K} (hb : o.bases = #[b
           ∑ j ∈ Finset.range b1.numFunctions,
             b1.rowSpec (snap b1 tol (us.getD i 0)) a d j * o.cps.get (j * nc + c) := by
   rw [Obj.outOfDomain1_iff hb] at hdom
-  have hadm := C03_snapped_admissible hv1 hp1 hs1 (fun h => hdom ⟨by rw [hp1]; decide, h⟩)
+  have hadm := C03_snapped_admissible hv1 hp1 hs1 (fun h => hdom ⟨by rw [hp1]; decide, Or.inr h⟩)
   obtain ⟨res, hres, hget⟩ := C03_nonrational_curve hb hv1 hs hr htol hadm d a tensor
+    (fun hp h => hdom ⟨hp, Or.inl (List.map_eq_nil_iff.mp h)⟩)
   rw [← C03_derivative_snap_curve hb hv1 htol hs1] at hres
   refine ⟨res, hres, fun i c hi hc => ?_⟩
   have := hget i c (by rw [List.length_map]; exact hi) hc
@@ -322,9 +334,11 @@ theorem C03_nonrational_surface_any {o : Obj K} {b1 b2 : Basis K} (hb : o.bases 
                 * b2.rowSpec (snap b2 tol (vs.getD i 0)) a2 d2 j2
                 * o.cps.get ((j1 * b2.numFunctions + j2) * nc + c)) := by
   rw [Obj.outOfDomain2_iff hb, not_or] at hdom
-  have hadm1 := C03_snapped_admissible hv1 hp1 hs1 (fun h => hdom.1 ⟨by rw [hp1]; decide, h⟩)
-  have hadm2 := C03_snapped_admissible hv2 hp2 hs2 (fun h => hdom.2 ⟨by rw [hp2]; decide, h⟩)
+  have hadm1 := C03_snapped_admissible hv1 hp1 hs1 (fun h => hdom.1 ⟨by rw [hp1]; decide, Or.inr h⟩)
+  have hadm2 := C03_snapped_admissible hv2 hp2 hs2 (fun h => hdom.2 ⟨by rw [hp2]; decide, Or.inr h⟩)
   obtain ⟨hg, hpw⟩ := C03_nonrational_surface hb hv1 hv2 hs hr htol hadm1 hadm2 d1 d2 a1 a2
+    (fun hp h => hdom.1 ⟨hp, Or.inl (List.map_eq_nil_iff.mp h)⟩)
+    (fun hp h => hdom.2 ⟨hp, Or.inl (List.map_eq_nil_iff.mp h)⟩)
   have e1 : ∀ i, i < us.length → (us.map (snap b1 tol)).getD i 0 = snap b1 tol (us.getD i 0) := by
     intro i hi; simp [List.getD_eq_getElem?_getD, hi]
   have e2 : ∀ i, i < vs.length → (vs.map (snap b2 tol)).getD i 0 = snap b2 tol (vs.getD i 0) := by
@@ -372,11 +386,14 @@ theorem C03_nonrational_volume_any {o : Obj K} {b1 b2 b3 : Basis K} (hb : o.base
                   * b3.rowSpec (snap b3 tol (ws.getD i 0)) a3 d3 j3
                   * o.cps.get (((j1 * b2.numFunctions + j2) * b3.numFunctions + j3) * nc + c)) := by
   rw [Obj.outOfDomain3_iff hb, not_or, not_or] at hdom
-  have hadm1 := C03_snapped_admissible hv1 hp1 hs1 (fun h => hdom.1 ⟨by rw [hp1]; decide, h⟩)
-  have hadm2 := C03_snapped_admissible hv2 hp2 hs2 (fun h => hdom.2.1 ⟨by rw [hp2]; decide, h⟩)
-  have hadm3 := C03_snapped_admissible hv3 hp3 hs3 (fun h => hdom.2.2 ⟨by rw [hp3]; decide, h⟩)
+  have hadm1 := C03_snapped_admissible hv1 hp1 hs1 (fun h => hdom.1 ⟨by rw [hp1]; decide, Or.inr h⟩)
+  have hadm2 := C03_snapped_admissible hv2 hp2 hs2 (fun h => hdom.2.1 ⟨by rw [hp2]; decide, Or.inr h⟩)
+  have hadm3 := C03_snapped_admissible hv3 hp3 hs3 (fun h => hdom.2.2 ⟨by rw [hp3]; decide, Or.inr h⟩)
   obtain ⟨hg, hpw⟩ :=
     C03_nonrational_volume hb hv1 hv2 hv3 hs hr htol hadm1 hadm2 hadm3 d1 d2 d3 a1 a2 a3
+      (fun hp h => hdom.1 ⟨hp, Or.inl (List.map_eq_nil_iff.mp h)⟩)
+      (fun hp h => hdom.2.1 ⟨hp, Or.inl (List.map_eq_nil_iff.mp h)⟩)
+      (fun hp h => hdom.2.2 ⟨hp, Or.inl (List.map_eq_nil_iff.mp h)⟩)
   have e1 : ∀ i, i < us.length → (us.map (snap b1 tol)).getD i 0 = snap b1 tol (us.getD i 0) := by
     intro i hi; simp [List.getD_eq_getElem?_getD, hi]
   have e2 : ∀ i, i < vs.length → (vs.map (snap b2 tol)).getD i 0 = snap b2 tol (vs.getD i 0) := by
@@ -712,6 +729,96 @@ theorem C03_rational_curve_iterated {o : Obj ℝ} {b : Basis ℝ} (hb : o.bases 
   · rw [i2]; exact hU.eq_deriv _ q2 hd2
   · rw [i3]; exact hU.eq_deriv _ q3 hd3
 
+/-- **Rational curve over ℝ on ANY valid basis — periodic included.**  Same statement as
+`C03_rational_curve_real`, with the rows read as ONE unwrapped spline: coefficients `P[i mod n]` over all `nAll`
+functions (for a non-periodic basis `nAll = n`, nothing wraps), at the effective point/side
+`(tₑ, s) = Basis.effPt b t₀ a` (non-periodic: `(t₀, effSide)`; periodic: the wrapped parameter, and the left limit at
+the seam `start` is the left limit at `stop`).  `HasDerivWithinAt` and `iteratedDerivWithin` on `[tₑ,∞)` resp.
+`(-∞,tₑ]`, orders 1 (generic quotient rule), 2 and 3 (closed forms). -/
+theorem C03_rational_curve_real_any {o : Obj ℝ} {b : Basis ℝ} (hb : o.bases = #[b]) (hv : b.Valid)
+    (hn : 0 < b.numFunctions) {dim : ℕ} (hs : o.cps.shape = [b.numFunctions, dim + 1])
+    (hr : o.rational = true) {tol : ℝ} (htol : 0 < tol) (t0 : ℝ) (hadm : b.Admissible tol t0)
+    (a : Bool) (hnot : b.periodic < 0 → ¬ (t0 = b.start ∧ a = false)) {c : ℕ} (hc : c < dim) :
+    let s := (b.effPt t0 a).2
+    let te := (b.effPt t0 a).1
+    let nJ : ℕ → ℝ → ℝ := fun k t => splineDeriv s b.kn (b.order - 1) b.nAll
+      (fun j => o.cps.get ((j % b.numFunctions) * (dim + 1) + c)) k t
+    let WJ : ℕ → ℝ → ℝ := fun k t => splineDeriv s b.kn (b.order - 1) b.nAll
+      (fun j => o.cps.get ((j % b.numFunctions) * (dim + 1) + dim)) k t
+    let x : ℝ → ℝ := fun t => nJ 0 t / WJ 0 t
+    WJ 0 te ≠ 0 →
+    (∃ r, o.derivativeGeneric tol [[t0]] [1] [a] true = .ok r ∧
+      HasDerivWithinAt x (r.get c) (sideSet s te) te ∧
+      iteratedDerivWithin 1 x (sideSet s te) te = r.get c) ∧
+    (HasDerivWithinAt (fun t => RatDeriv.first (nJ 0 t) (nJ 1 t) (WJ 0 t) (WJ 1 t))
+        ((o.curveDerivativeRational tol [t0] 2 a).get c) (sideSet s te) te ∧
+      iteratedDerivWithin 2 x (sideSet s te) te = (o.curveDerivativeRational tol [t0] 2 a).get c) ∧
+    (HasDerivWithinAt (fun t => RatDeriv.curveD2 (nJ 0 t) (nJ 1 t) (nJ 2 t) (WJ 0 t) (WJ 1 t) (WJ 2 t))
+        ((o.curveDerivativeRational tol [t0] 3 a).get c) (sideSet s te) te ∧
+      iteratedDerivWithin 3 x (sideSet s te) te = (o.curveDerivativeRational tol [t0] 3 a).get c) := by
+  intro s te nJ WJ x hW
+  obtain ⟨hnc, hdim⟩ := Obj.dimension_of_shape (o := o) (pre := [b.numFunctions]) (nc := dim + 1) hs
+  have hdim' : o.dimension = dim := by rw [hdim, hr]; simp
+  have hmem := effPt_mem hv a (fun hp => hadm.2.1 (by have := hv.periodic_ge; omega)) hnot
+  obtain ⟨μ, -, -, hμ⟩ := exists_span s b.kn hv.kn_mono _ _ te hmem
+  obtain ⟨q1, q2, q3⟩ := C03_quotient_chain s b.kn hv.kn_mono μ (b.order - 1) b.nAll
+    (fun j => o.cps.get ((j % b.numFunctions) * (dim + 1) + c))
+    (fun j => o.cps.get ((j % b.numFunctions) * (dim + 1) + dim)) te hμ hW
+  obtain ⟨i1, i2, i3⟩ := iteratedDerivWithin_quotient s b.kn hv.kn_mono μ (b.order - 1) b.nAll
+    (fun j => o.cps.get ((j % b.numFunctions) * (dim + 1) + c))
+    (fun j => o.cps.get ((j % b.numFunctions) * (dim + 1) + dim)) te hμ hW
+  have hadm' : b.Admissible tol ([t0].getD 0 0) := by simpa using hadm
+  have hnot' : b.periodic < 0 → ¬ (([t0] : List ℝ).getD 0 0 = b.start ∧ a = false) := by simpa using hnot
+  have jn : ∀ k, (o.curveJet tol [t0] k a).get (0 * o.ncomp + c) = nJ k te := by
+    intro k
+    rw [hnc]
+    have := Obj.curveJet_spec_any hb hv hn hs htol [t0] k a (i := 0) (c := c) (by simp) (by omega) hadm' hnot'
+    simpa using this
+  have jW : ∀ k, (o.curveJet tol [t0] k a).get (0 * o.ncomp + o.dimension) = WJ k te := by
+    intro k
+    rw [hnc, hdim']
+    have := Obj.curveJet_spec_any hb hv hn hs htol [t0] k a (i := 0) (c := dim) (by simp) (by omega) hadm' hnot'
+    simpa using this
+  refine ⟨?_, ?_, ?_⟩
+  · have hus : ∀ u ∈ [t0], b.Admissible tol u := by intro u hu; simp at hu; rw [hu]; exact hadm
+    have hdom := Obj.not_outOfDomain1 hb hv htol hus
+    have hval := o.validateDomain_ok tol [[t0]] hdom
+    have hok : ∃ r, o.derivativeGeneric tol [[t0]] [1] [a] true = .ok r := by
+      unfold Obj.derivativeGeneric
+      rw [if_neg (by simp), hval]
+      simp [hr]
+    obtain ⟨r, hrr⟩ := hok
+    obtain ⟨-, ps, hps, hget⟩ :=
+      Obj.derivativeGeneric_rational_get o tol [[t0]] [1] [a] true r hr (by simp) hrr
+    rw [hval] at hps
+    injection hps with hps
+    subst hps
+    have hsz : 0 < (o.homJet tol (o.snapParams tol [[t0]]) [1] [a] true).size / o.ncomp := by
+      rw [Obj.homJet1_size hb hs, hnc]; simp
+    have h := hget 0 c (by rw [hdim']; exact hc) hsz
+    have e0 : 0 * o.dimension + c = c := by simp
+    rw [e0] at h
+    have k0c := Obj.homJet1_spec_any hb hv hn hs htol [t0] 0 a (i := 0) (c := c) (by simp) (by omega) hadm' hnot'
+    have k1c := Obj.homJet1_spec_any hb hv hn hs htol [t0] 1 a (i := 0) (c := c) (by simp) (by omega) hadm' hnot'
+    have k0w := Obj.homJet1_spec_any hb hv hn hs htol [t0] 0 a (i := 0) (c := dim) (by simp) (by omega) hadm' hnot'
+    have k1w := Obj.homJet1_spec_any hb hv hn hs htol [t0] 1 a (i := 0) (c := dim) (by simp) (by omega) hadm' hnot'
+    simp only [List.map_cons, List.map_nil, hnc, hdim', Nat.zero_mul, Nat.zero_add, List.getD_cons_zero]
+      at k0c k1c k0w k1w h
+    rw [k0c, k1c, k0w, k1w] at h
+    refine ⟨r, hrr, ?_, ?_⟩
+    · rw [h]; exact q1
+    · rw [h]; exact i1
+  · have h := Obj.curveDerivativeRational_get_two o tol [t0] a 0 c (by rw [hdim']; exact hc) (by simp)
+    have e0 : 0 * o.dimension + c = c := by simp
+    rw [e0] at h
+    rw [h, jn 0, jn 1, jn 2, jW 0, jW 1, jW 2]
+    exact ⟨q2, i2⟩
+  · have h := Obj.curveDerivativeRational_get_three o tol [t0] a 0 c (by rw [hdim']; exact hc) (by simp)
+    have e0 : 0 * o.dimension + c = c := by simp
+    rw [e0] at h
+    rw [h, jn 0, jn 1, jn 2, jn 3, jW 0, jW 1, jW 2, jW 3]
+    exact ⟨q3, i3⟩
+
 /-- **Rational surface over ℝ, first-order partials.**  `o` a rational surface on valid bases, `(u₀, v₀)`
 admissible.  For the `u`-partial (`d=(1,0)`): `b1` non-periodic, `u₀` not its start approached from the left;
 `s = effSide b1 u₀ a₁`; with the `u`-coefficients (the `v`-direction already contracted at `v₀` from the side `a₂`)
@@ -823,6 +930,168 @@ theorem C03_rational_surface_real {o : Obj ℝ} {b1 b2 : Basis ℝ} (hb : o.base
     exact hasDerivWithinAt_quot1
       (hasDerivWithinAt_splineDeriv s b2.kn hv2.kn_mono μ _ _ _ 0 v0 hμ)
       (hasDerivWithinAt_splineDeriv s b2.kn hv2.kn_mono μ _ _ _ 0 v0 hμ) hW
+
+/-- **Rational surface over ℝ: the closed forms of total order 2 and 3 are iterated one-variable derivatives —
+no Leibniz hypothesis.**  `o` a rational surface on valid non-periodic bases, `(u₀, v₀)` admissible (not a domain
+start approached from the left), sides `fu`, `fv`, `s₁ = effSide b1 u₀ fu`, `s₂ = effSide b2 v₀ fv`.  Write
+`U a k cc (u) = Σ_{j₁} dB^{(a)}_{j₁}(u) · Σ_{j₂} rowSpec²(v₀, fv, k)_{j₂} P[j₁,j₂,cc]` (the `(a,k)` jet of homogeneous
+component `cc` as a function of `u`, `v₀` fixed) and `V a k cc (v)` likewise as a function of `v` (`u₀` fixed);
+`cc = c` numerator, `cc = dim` weight.  If the weight `U 0 0 dim u₀ ≠ 0`:
+* `d = (2,0), (3,0)`: the model value is `iteratedDerivWithin 2` resp. `3` of `u ↦ U 0 0 c u / U 0 0 dim u = x(u, v₀)`;
+* `d = (0,2), (0,3)`: likewise in `v` for `v ↦ x(u₀, v)`;
+* `d = (1,1)`: the model value is the one-sided `v`-derivative at `v₀` of `v ↦ ∂_u x(u₀, v)` (`first` of the `V`-jets,
+  which `C03_rational_surface_real` identifies with the `u`-partial);
+* `d = (2,1)`: the `v`-derivative of `v ↦ ∂²_u x(u₀, v)` (`curveD2` of the `V`-jets);
+* `d = (1,2)`: the `u`-derivative of `u ↦ ∂²_v x(u, v₀)` (`curveD2` of the `U`-jets in the `v`-orders).
+All seven calls succeed (`tensor=True`). -/
+theorem C03_rational_surface_closed_real {o : Obj ℝ} {b1 b2 : Basis ℝ} (hb : o.bases = #[b1, b2])
+    (hv1 : b1.Valid) (hv2 : b2.Valid) (hp1 : b1.periodic = -1) (hp2 : b2.periodic = -1) {dim : ℕ}
+    (hs : o.cps.shape = [b1.numFunctions, b2.numFunctions, dim + 1]) {tol : ℝ} (htol : 0 < tol)
+    (u0 v0 : ℝ) (hu : b1.Admissible tol u0) (hvv : b2.Admissible tol v0) (fu fv : Bool)
+    (hnu : ¬ (u0 = b1.start ∧ fu = false)) (hnv : ¬ (v0 = b2.start ∧ fv = false)) {c : ℕ} (hc : c < dim)
+    (hr : o.rational = true) :
+    let s1 := effSide b1 u0 fu
+    let s2 := effSide b2 v0 fv
+    let U : ℕ → ℕ → ℕ → ℝ → ℝ := fun a k cc u =>
+      splineDeriv s1 b1.kn (b1.order - 1) b1.numFunctions
+        (fun j1 => ∑ j2 ∈ Finset.range b2.numFunctions,
+          b2.rowSpec v0 fv k j2 * o.cps.get ((j1 * b2.numFunctions + j2) * (dim + 1) + cc)) a u
+    let V : ℕ → ℕ → ℕ → ℝ → ℝ := fun a k cc v =>
+      splineDeriv s2 b2.kn (b2.order - 1) b2.numFunctions
+        (fun j2 => ∑ j1 ∈ Finset.range b1.numFunctions,
+          b1.rowSpec u0 fu a j1 * o.cps.get ((j1 * b2.numFunctions + j2) * (dim + 1) + cc)) k v
+    let call := fun du dv => o.surfaceDerivativeRational tol [u0] [v0] du dv fu fv true
+    U 0 0 dim u0 ≠ 0 →
+    (∃ r, call 2 0 = .ok r ∧
+      iteratedDerivWithin 2 (fun u => U 0 0 c u / U 0 0 dim u) (sideSet s1 u0) u0 = r.get c) ∧
+    (∃ r, call 3 0 = .ok r ∧
+      iteratedDerivWithin 3 (fun u => U 0 0 c u / U 0 0 dim u) (sideSet s1 u0) u0 = r.get c) ∧
+    (∃ r, call 0 2 = .ok r ∧
+      iteratedDerivWithin 2 (fun v => V 0 0 c v / V 0 0 dim v) (sideSet s2 v0) v0 = r.get c) ∧
+    (∃ r, call 0 3 = .ok r ∧
+      iteratedDerivWithin 3 (fun v => V 0 0 c v / V 0 0 dim v) (sideSet s2 v0) v0 = r.get c) ∧
+    (∃ r, call 1 1 = .ok r ∧
+      HasDerivWithinAt (fun v => RatDeriv.first (V 0 0 c v) (V 1 0 c v) (V 0 0 dim v) (V 1 0 dim v))
+        (r.get c) (sideSet s2 v0) v0) ∧
+    (∃ r, call 2 1 = .ok r ∧
+      HasDerivWithinAt (fun v => RatDeriv.curveD2 (V 0 0 c v) (V 1 0 c v) (V 2 0 c v)
+          (V 0 0 dim v) (V 1 0 dim v) (V 2 0 dim v)) (r.get c) (sideSet s2 v0) v0) ∧
+    (∃ r, call 1 2 = .ok r ∧
+      HasDerivWithinAt (fun u => RatDeriv.curveD2 (U 0 0 c u) (U 0 1 c u) (U 0 2 c u)
+          (U 0 0 dim u) (U 0 1 dim u) (U 0 2 dim u)) (r.get c) (sideSet s1 u0) u0) := by
+  intro s1 s2 U V call hW
+  obtain ⟨hnco, hdim⟩ := Obj.dimension_of_shape (o := o) (pre := [b1.numFunctions, b2.numFunctions])
+    (nc := dim + 1) hs
+  have hdimo : o.dimension = dim := by rw [hdim, hr]; simp
+  have hinu := hu.2.1 hp1
+  have hinv := hvv.2.1 hp2
+  obtain ⟨μ1, hμ1⟩ := C03_exists_span hv1 hinu.1 hinu.2 fu hnu
+  obtain ⟨μ2, hμ2⟩ := C03_exists_span hv2 hinv.1 hinv.2 fv hnv
+  have hu' : b1.Admissible tol ([u0].getD 0 0) := by simpa using hu
+  have hv' : b2.Admissible tol ([v0].getD 0 0) := by simpa using hvv
+  have hnu' : ¬ (([u0] : List ℝ).getD 0 0 = b1.start ∧ fu = false) := by simpa using hnu
+  have hnv' : ¬ (([v0] : List ℝ).getD 0 0 = b2.start ∧ fv = false) := by simpa using hnv
+  -- the jets of the closed-form section, as functions of `u` and of `v`
+  have JU : ∀ a k cc, cc < dim + 1 →
+      (o.surfJet tol [u0] [v0] fu fv a k).get (0 * o.ncomp + cc) = U a k cc u0 := by
+    intro a k cc hcc
+    have := Obj.surfJet_spec_u hb hv1 hv2 hp1 hs htol [u0] [v0] fu fv a k (i1 := 0) (i2 := 0) (cc := cc)
+      (by simp) (by simp) hcc hu' hv' hnu'
+    simpa [hnco] using this
+  have JV : ∀ a k cc, cc < dim + 1 →
+      (o.surfJet tol [u0] [v0] fu fv a k).get (0 * o.ncomp + cc) = V a k cc v0 := by
+    intro a k cc hcc
+    have := Obj.surfJet_spec_v hb hv1 hv2 hp2 hs htol [u0] [v0] fu fv a k (i1 := 0) (i2 := 0) (cc := cc)
+      (by simp) (by simp) hcc hu' hv' hnv'
+    simpa [hnco] using this
+  have UV : ∀ a k cc, cc < dim + 1 → U a k cc u0 = V a k cc v0 := fun a k cc hcc =>
+    (JU a k cc hcc).symm.trans (JV a k cc hcc)
+  have dU : ∀ a k cc, HasDerivWithinAt (U a k cc) (U (a+1) k cc u0) (sideSet s1 u0) u0 := fun a k cc =>
+    hasDerivWithinAt_splineDeriv s1 b1.kn hv1.kn_mono μ1 _ _ _ a u0 hμ1
+  have dV : ∀ a k cc, HasDerivWithinAt (V a k cc) (V a (k+1) cc v0) (sideSet s2 v0) v0 := fun a k cc =>
+    hasDerivWithinAt_splineDeriv s2 b2.kn hv2.kn_mono μ2 _ _ _ k v0 hμ2
+  have hWV : V 0 0 dim v0 ≠ 0 := by rw [← UV 0 0 dim (by omega)]; exact hW
+  -- the model entries
+  have hent : ∀ du dv, 2 ≤ du + dv → du + dv ≤ 3 → ∃ r, call du dv = .ok r ∧
+      RatDeriv.surfD (o.surfJetAt tol [u0] [v0] fu fv 0 c) (o.surfJetAt tol [u0] [v0] fu fv 0 o.dimension)
+        du dv = some (r.get c) := by
+    intro du dv h2 h3
+    obtain ⟨r, hr1, hget⟩ := Obj.surfaceDerivativeRational_get o tol [u0] [v0] du dv fu fv h2 h3
+    refine ⟨r, hr1, ?_⟩
+    have := hget 0 c (by rw [hdimo]; exact hc) (by simp)
+    simpa using this
+  have fN : ∀ a k, ((o.surfJet tol [u0] [v0] fu fv a k).get (0 * o.ncomp + c)) = U a k c u0 :=
+    fun a k => JU a k c (by omega)
+  have fW : ∀ a k, ((o.surfJet tol [u0] [v0] fu fv a k).get (0 * o.ncomp + o.dimension)) = U a k dim u0 := by
+    intro a k; rw [hdimo]; exact JU a k dim (by omega)
+  obtain ⟨iu1, iu2, iu3⟩ := iteratedDerivWithin_quotient s1 b1.kn hv1.kn_mono μ1 (b1.order - 1)
+    b1.numFunctions _ _ u0 hμ1 hW
+  obtain ⟨iv1, iv2, iv3⟩ := iteratedDerivWithin_quotient s2 b2.kn hv2.kn_mono μ2 (b2.order - 1)
+    b2.numFunctions _ _ v0 hμ2 hWV
+  refine ⟨?_, ?_, ?_, ?_, ?_, ?_, ?_⟩
+  · obtain ⟨r, hr1, he⟩ := hent 2 0 (by omega) (by omega)
+    refine ⟨r, hr1, ?_⟩
+    have : r.get c = RatDeriv.surfD20 (o.surfJetAt tol [u0] [v0] fu fv 0 c)
+        (o.surfJetAt tol [u0] [v0] fu fv 0 o.dimension) := (Option.some.inj he).symm
+    rw [this, surfD20_eq_curveD2, iu2]
+    simp only [Obj.surfJetAt, fN, fW]
+    rfl
+  · obtain ⟨r, hr1, he⟩ := hent 3 0 (by omega) (by omega)
+    refine ⟨r, hr1, ?_⟩
+    have : r.get c = RatDeriv.surfD30 (o.surfJetAt tol [u0] [v0] fu fv 0 c)
+        (o.surfJetAt tol [u0] [v0] fu fv 0 o.dimension) := (Option.some.inj he).symm
+    rw [this, surfD30_eq_curveD3, iu3]
+    simp only [Obj.surfJetAt, fN, fW]
+    rfl
+  · obtain ⟨r, hr1, he⟩ := hent 0 2 (by omega) (by omega)
+    refine ⟨r, hr1, ?_⟩
+    have : r.get c = RatDeriv.surfD02 (o.surfJetAt tol [u0] [v0] fu fv 0 c)
+        (o.surfJetAt tol [u0] [v0] fu fv 0 o.dimension) := (Option.some.inj he).symm
+    rw [this, surfD02_eq_curveD2, iv2]
+    simp only [Obj.surfJetAt, fN, fW, UV _ _ _ (by omega : c < dim + 1), UV _ _ _ (by omega : dim < dim + 1)]
+    rfl
+  · obtain ⟨r, hr1, he⟩ := hent 0 3 (by omega) (by omega)
+    refine ⟨r, hr1, ?_⟩
+    have : r.get c = RatDeriv.surfD03 (o.surfJetAt tol [u0] [v0] fu fv 0 c)
+        (o.surfJetAt tol [u0] [v0] fu fv 0 o.dimension) := (Option.some.inj he).symm
+    rw [this, surfD03_eq_curveD3, iv3]
+    simp only [Obj.surfJetAt, fN, fW, UV _ _ _ (by omega : c < dim + 1), UV _ _ _ (by omega : dim < dim + 1)]
+    rfl
+  · obtain ⟨r, hr1, he⟩ := hent 1 1 (by omega) (by omega)
+    refine ⟨r, hr1, ?_⟩
+    have : r.get c = RatDeriv.surfD11 (o.surfJetAt tol [u0] [v0] fu fv 0 c)
+        (o.surfJetAt tol [u0] [v0] fu fv 0 o.dimension) := (Option.some.inj he).symm
+    rw [this]
+    refine hasDerivWithinAt_quot11 (n01 := V 0 1 c) (n11 := V 1 1 c) (W01 := V 0 1 dim) (W11 := V 1 1 dim)
+      (dV 0 0 c) (dV 1 0 c) (dV 0 0 dim) (dV 1 0 dim) hWV _ _ ?_ ?_
+    · simp only [Obj.surfJetAt, fN, UV _ _ _ (by omega : c < dim + 1)]
+      simp
+    · simp only [Obj.surfJetAt, fW, UV _ _ _ (by omega : dim < dim + 1)]
+      simp
+  · obtain ⟨r, hr1, he⟩ := hent 2 1 (by omega) (by omega)
+    refine ⟨r, hr1, ?_⟩
+    have : r.get c = RatDeriv.surfD21 (o.surfJetAt tol [u0] [v0] fu fv 0 c)
+        (o.surfJetAt tol [u0] [v0] fu fv 0 o.dimension) := (Option.some.inj he).symm
+    rw [this]
+    refine hasDerivWithinAt_quot21 (n01 := V 0 1 c) (n11 := V 1 1 c) (n21 := V 2 1 c)
+      (W01 := V 0 1 dim) (W11 := V 1 1 dim) (W21 := V 2 1 dim)
+      (dV 0 0 c) (dV 1 0 c) (dV 2 0 c) (dV 0 0 dim) (dV 1 0 dim) (dV 2 0 dim) hWV _ _ ?_ ?_
+    · simp only [Obj.surfJetAt, fN, UV _ _ _ (by omega : c < dim + 1)]
+      simp
+    · simp only [Obj.surfJetAt, fW, UV _ _ _ (by omega : dim < dim + 1)]
+      simp
+  · obtain ⟨r, hr1, he⟩ := hent 1 2 (by omega) (by omega)
+    refine ⟨r, hr1, ?_⟩
+    have : r.get c = RatDeriv.surfD12 (o.surfJetAt tol [u0] [v0] fu fv 0 c)
+        (o.surfJetAt tol [u0] [v0] fu fv 0 o.dimension) := (Option.some.inj he).symm
+    rw [this]
+    refine hasDerivWithinAt_quot12 (m10 := U 1 0 c) (m11 := U 1 1 c) (m12 := U 1 2 c)
+      (V10 := U 1 0 dim) (V11 := U 1 1 dim) (V12 := U 1 2 dim)
+      (dU 0 0 c) (dU 0 1 c) (dU 0 2 c) (dU 0 0 dim) (dU 0 1 dim) (dU 0 2 dim) hW _ _ ?_ ?_
+    · simp only [Obj.surfJetAt, fN]
+      simp
+    · simp only [Obj.surfJetAt, fW]
+      simp
 
 end real
 
@@ -1192,13 +1461,14 @@ theorem C03_derivative_spline_obj_curve {o : Obj K} {b : Basis K} (hb : o.bases 
     (hready : b.DSplineReady) {nc : ℕ} (hs : o.cps.shape = [b.numFunctions, nc])
     (hr : o.rational = false) {tol : K} (htol : 0 < tol) :
     ∃ o', o.getDerivativeSpline tol 0 = .ok o' ∧
-      ∀ us : List K, (∀ u ∈ us, b.DSplineOk tol u) → ∀ tensor : Bool,
+      ∀ us : List K, (∀ u ∈ us, b.DSplineOk tol u) → us ≠ [] → ∀ tensor : Bool,
         ∃ rv rd, o'.evaluate tol [us] tensor = .ok rv ∧
           o.derivativeGeneric tol [us] [1] [true] tensor = .ok rd ∧
           ∀ i c, i < us.length → c < nc → rv.get (i * nc + c) = rd.get (i * nc + c) := by
   obtain ⟨o', nb, hget, hO, hdir⟩ := Obj.exists_derivObj (o := o) (b := b) (dir := 0)
     (Obj.basis_zero hb) (by unfold Obj.pardim; rw [hs]; simp) (by rw [hs]; rfl) hr hv hready htol.le
-  exact ⟨o', hget, fun us hus tensor => Obj.derivSplineG_curve hb hv hs hr htol hdir hO hus tensor⟩
+  exact ⟨o', hget, fun us hus hne tensor =>
+    Obj.derivSplineG_curve hb hv hs hr htol hdir hO hus tensor (fun _ => hne) (fun _ => hne)⟩
 
 /-- **Surface, first direction**: `get_derivative_spline(0).evaluate(us, vs) = derivative(us, vs, d=(1,0))`, grid and
 pointwise. -/
@@ -1208,6 +1478,7 @@ theorem C03_derivative_spline_obj_surface_u {o : Obj K} {b1 b2 : Basis K} (hb : 
     {tol : K} (htol : 0 < tol) :
     ∃ o', o.getDerivativeSpline tol 0 = .ok o' ∧
       ∀ us vs : List K, (∀ u ∈ us, b1.DSplineOk tol u) → (∀ v ∈ vs, b2.Admissible tol v) →
+        us ≠ [] → (b2.periodic < 0 → vs ≠ []) →
         (∃ rv rd, o'.evaluate tol [us, vs] true = .ok rv ∧
           o.derivativeGeneric tol [us, vs] [1, 0] [true, true] true = .ok rd ∧
           ∀ i1 i2 c, i1 < us.length → i2 < vs.length → c < nc →
@@ -1218,7 +1489,8 @@ theorem C03_derivative_spline_obj_surface_u {o : Obj K} {b1 b2 : Basis K} (hb : 
             ∀ i c, i < us.length → c < nc → rv.get (i * nc + c) = rd.get (i * nc + c)) := by
   obtain ⟨o', nb, hget, hO, hdir⟩ := Obj.exists_derivObj (o := o) (b := b1) (dir := 0)
     (Obj.basis_two_zero hb) (by unfold Obj.pardim; rw [hs]; simp) (by rw [hs]; rfl) hr hv1 hready htol.le
-  exact ⟨o', hget, fun us vs hus hvs => Obj.derivSplineG_surface_u hb hv1 hv2 hs hr htol hdir hO hus hvs⟩
+  exact ⟨o', hget, fun us vs hus hvs hne1 hne2 =>
+    Obj.derivSplineG_surface_u hb hv1 hv2 hs hr htol hdir hO hus hvs (fun _ => hne1) hne2 (fun _ => hne1)⟩
 
 /-- **Surface, second direction**: `get_derivative_spline(1).evaluate(us, vs) = derivative(us, vs, d=(0,1))`. -/
 theorem C03_derivative_spline_obj_surface_v {o : Obj K} {b1 b2 : Basis K} (hb : o.bases = #[b1, b2])
@@ -1227,6 +1499,7 @@ theorem C03_derivative_spline_obj_surface_v {o : Obj K} {b1 b2 : Basis K} (hb : 
     {tol : K} (htol : 0 < tol) :
     ∃ o', o.getDerivativeSpline tol 1 = .ok o' ∧
       ∀ us vs : List K, (∀ u ∈ us, b1.Admissible tol u) → (∀ v ∈ vs, b2.DSplineOk tol v) →
+        (b1.periodic < 0 → us ≠ []) → vs ≠ [] →
         (∃ rv rd, o'.evaluate tol [us, vs] true = .ok rv ∧
           o.derivativeGeneric tol [us, vs] [0, 1] [true, true] true = .ok rd ∧
           ∀ i1 i2 c, i1 < us.length → i2 < vs.length → c < nc →
@@ -1237,7 +1510,8 @@ theorem C03_derivative_spline_obj_surface_v {o : Obj K} {b1 b2 : Basis K} (hb : 
             ∀ i c, i < us.length → c < nc → rv.get (i * nc + c) = rd.get (i * nc + c)) := by
   obtain ⟨o', nb, hget, hO, hdir⟩ := Obj.exists_derivObj (o := o) (b := b2) (dir := 1)
     (Obj.basis_two_one hb) (by unfold Obj.pardim; rw [hs]; simp) (by rw [hs]; rfl) hr hv2 hready htol.le
-  exact ⟨o', hget, fun us vs hus hvs => Obj.derivSplineG_surface_v hb hv1 hv2 hs hr htol hdir hO hus hvs⟩
+  exact ⟨o', hget, fun us vs hus hvs hne1 hne2 =>
+    Obj.derivSplineG_surface_v hb hv1 hv2 hs hr htol hdir hO hus hvs hne1 (fun _ => hne2) (fun _ => hne2)⟩
 
 /-- **Volume, direction 0** (same reading as for surfaces). -/
 theorem C03_derivative_spline_obj_volume_u {o : Obj K} {b1 b2 b3 : Basis K} (hb : o.bases = #[b1, b2, b3])
@@ -1247,6 +1521,7 @@ theorem C03_derivative_spline_obj_volume_u {o : Obj K} {b1 b2 b3 : Basis K} (hb 
     ∃ o', o.getDerivativeSpline tol 0 = .ok o' ∧
       ∀ us vs ws : List K, (∀ u ∈ us, b1.DSplineOk tol u) → (∀ v ∈ vs, b2.Admissible tol v) →
         (∀ w ∈ ws, b3.Admissible tol w) →
+        us ≠ [] → (b2.periodic < 0 → vs ≠ []) → (b3.periodic < 0 → ws ≠ []) →
         (∃ rv rd, o'.evaluate tol [us, vs, ws] true = .ok rv ∧
           o.derivativeGeneric tol [us, vs, ws] [1, 0, 0] [true, true, true] true = .ok rd ∧
           ∀ i1 i2 i3 c, i1 < us.length → i2 < vs.length → i3 < ws.length → c < nc →
@@ -1259,8 +1534,9 @@ theorem C03_derivative_spline_obj_volume_u {o : Obj K} {b1 b2 b3 : Basis K} (hb 
   obtain ⟨o', nb, hget, hO, hdir⟩ := Obj.exists_derivObj (o := o) (b := b1) (dir := 0)
     (by unfold Obj.basis; rw [hb]; rfl) (by unfold Obj.pardim; rw [hs]; simp) (by rw [hs]; rfl) hr
     hv1 hready htol.le
-  exact ⟨o', hget, fun us vs ws hus hvs hws =>
-    Obj.derivSplineG_volume_u hb hv1 hv2 hv3 hs hr htol hdir hO hus hvs hws⟩
+  exact ⟨o', hget, fun us vs ws hus hvs hws hne1 hne2 hne3 =>
+    Obj.derivSplineG_volume_u hb hv1 hv2 hv3 hs hr htol hdir hO hus hvs hws
+      (fun _ => hne1) hne2 hne3 (fun _ => hne1)⟩
 
 /-- **Volume, direction 1** (same reading as for surfaces). -/
 theorem C03_derivative_spline_obj_volume_v {o : Obj K} {b1 b2 b3 : Basis K} (hb : o.bases = #[b1, b2, b3])
@@ -1270,6 +1546,7 @@ theorem C03_derivative_spline_obj_volume_v {o : Obj K} {b1 b2 b3 : Basis K} (hb 
     ∃ o', o.getDerivativeSpline tol 1 = .ok o' ∧
       ∀ us vs ws : List K, (∀ u ∈ us, b1.Admissible tol u) → (∀ v ∈ vs, b2.DSplineOk tol v) →
         (∀ w ∈ ws, b3.Admissible tol w) →
+        (b1.periodic < 0 → us ≠ []) → vs ≠ [] → (b3.periodic < 0 → ws ≠ []) →
         (∃ rv rd, o'.evaluate tol [us, vs, ws] true = .ok rv ∧
           o.derivativeGeneric tol [us, vs, ws] [0, 1, 0] [true, true, true] true = .ok rd ∧
           ∀ i1 i2 i3 c, i1 < us.length → i2 < vs.length → i3 < ws.length → c < nc →
@@ -1282,8 +1559,9 @@ theorem C03_derivative_spline_obj_volume_v {o : Obj K} {b1 b2 b3 : Basis K} (hb 
   obtain ⟨o', nb, hget, hO, hdir⟩ := Obj.exists_derivObj (o := o) (b := b2) (dir := 1)
     (by unfold Obj.basis; rw [hb]; rfl) (by unfold Obj.pardim; rw [hs]; simp) (by rw [hs]; rfl) hr
     hv2 hready htol.le
-  exact ⟨o', hget, fun us vs ws hus hvs hws =>
-    Obj.derivSplineG_volume_v hb hv1 hv2 hv3 hs hr htol hdir hO hus hvs hws⟩
+  exact ⟨o', hget, fun us vs ws hus hvs hws hne1 hne2 hne3 =>
+    Obj.derivSplineG_volume_v hb hv1 hv2 hv3 hs hr htol hdir hO hus hvs hws
+      hne1 (fun _ => hne2) hne3 (fun _ => hne2)⟩
 
 /-- **Volume, direction 2** (same reading as for surfaces). -/
 theorem C03_derivative_spline_obj_volume_w {o : Obj K} {b1 b2 b3 : Basis K} (hb : o.bases = #[b1, b2, b3])
@@ -1293,6 +1571,7 @@ theorem C03_derivative_spline_obj_volume_w {o : Obj K} {b1 b2 b3 : Basis K} (hb 
     ∃ o', o.getDerivativeSpline tol 2 = .ok o' ∧
       ∀ us vs ws : List K, (∀ u ∈ us, b1.Admissible tol u) → (∀ v ∈ vs, b2.Admissible tol v) →
         (∀ w ∈ ws, b3.DSplineOk tol w) →
+        (b1.periodic < 0 → us ≠ []) → (b2.periodic < 0 → vs ≠ []) → ws ≠ [] →
         (∃ rv rd, o'.evaluate tol [us, vs, ws] true = .ok rv ∧
           o.derivativeGeneric tol [us, vs, ws] [0, 0, 1] [true, true, true] true = .ok rd ∧
           ∀ i1 i2 i3 c, i1 < us.length → i2 < vs.length → i3 < ws.length → c < nc →
@@ -1305,8 +1584,9 @@ theorem C03_derivative_spline_obj_volume_w {o : Obj K} {b1 b2 b3 : Basis K} (hb 
   obtain ⟨o', nb, hget, hO, hdir⟩ := Obj.exists_derivObj (o := o) (b := b3) (dir := 2)
     (by unfold Obj.basis; rw [hb]; rfl) (by unfold Obj.pardim; rw [hs]; simp) (by rw [hs]; rfl) hr
     hv3 hready htol.le
-  exact ⟨o', hget, fun us vs ws hus hvs hws =>
-    Obj.derivSplineG_volume_w hb hv1 hv2 hv3 hs hr htol hdir hO hus hvs hws⟩
+  exact ⟨o', hget, fun us vs ws hus hvs hws hne1 hne2 hne3 =>
+    Obj.derivSplineG_volume_w hb hv1 hv2 hv3 hs hr htol hdir hO hus hvs hws
+      hne1 hne2 (fun _ => hne3) (fun _ => hne3)⟩
 
 /-- The derivative basis of a valid non-periodic basis of order ≥ 2 is valid, has one function less, the same
 domain, and keeps admissible parameters admissible; for a periodic basis with ≥ 2 functions it is valid with the
@@ -1384,6 +1664,140 @@ theorem C03_tangent_is_first_derivative (o : Obj K) (tol : K) (us vs : List K) (
     have : ∀ r, surfaceOutcome r (.lst [0, 1]) = .generic [0, 1] := by decide
     simp [Obj.surfaceDerivativeWith, List.range, List.range.loop, this, ASpec.norm_idem]
 
+/-! ### The normalised frame: `tangent`, `Surface.normal`, `Curve.binormal`, `Curve.normal`
+
+`Obj.tangentUnit / surfaceNormalUnit / curveBinormalUnit / curveNormalUnit sq` mirror the Python methods including
+the divisions by `np.linalg.norm`, with the square root as a parameter `sq` (`IsSqrt sq`: the positive square root on
+positive numbers — `Real.sqrt`, or the float one up to rounding).  The driver ops `c03_tangent`, `c03_snormal`,
+`c03_binormal`, `c03_cnormal` send the UN-normalised vector `R` together with `Tensor.normSqRows R`, and the harness
+compares the implementation with `R / √normsq`, i.e. with `Tensor.normalizeRows √ R`.  The theorems below show that
+this is what the normalised model computes, row by row (3 components; rows with non-zero norm). -/
+
+section frame
+variable [IsStrictOrderedRing K]
+
+/-- **`tangent`**: each returned field is the un-normalised field (`= derivative(d = e_dir)`,
+`C03_tangent_is_first_derivative`) with every row divided by a positive `s` with `s² = ‖v‖²`; the rows are unit
+vectors; and the number the driver sends as squared norm is `‖v‖²`. -/
+theorem C03_tangent_unit {sq : K → K} (hsq : IsSqrt sq) (o : Obj K) (tol : K) (params : List (List K))
+    (dir : Option ℕ) (above : ASpec) (tensor : Bool) (ts : List (Tensor K))
+    (h : o.tangent tol params dir above tensor = .ok ts) :
+    o.tangentUnit sq tol params dir above tensor = .ok (ts.map (Tensor.normalizeRows sq)) ∧
+    ∀ v ∈ ts, v.shape.getLastD 1 = 3 → ∀ pI, pI < v.size / 3 → 0 < v.nsq3 pI →
+      (Tensor.normSqRows v).getD pI 0 = v.nsq3 pI ∧
+      ∃ s, 0 < s ∧ s * s = v.nsq3 pI ∧
+        (∀ c, c < 3 → (Tensor.normalizeRows sq v).row3 pI c = v.row3 pI c / s) ∧
+        (Tensor.normalizeRows sq v).nsq3 pI = 1 := by
+  constructor
+  · unfold Obj.tangentUnit; rw [h]; rfl
+  · intro v _ h3 pI hp hn
+    exact ⟨Tensor.normSqRows_getD3 v h3 hp, Tensor.normalizeRows_unit hsq v h3 hp hn⟩
+
+/-- **`Surface.normal`** (`dimension = 3`): the code normalises the two tangents, takes the cross product and
+normalises again; row by row this is the normalised cross product `R = ∂u × ∂v` of the UN-normalised tangents, which
+is what `c03_snormal` sends (`surfaceNormalRaw`) — whenever the three norms are non-zero. -/
+theorem C03_surface_normal_unit {sq : K → K} (hsq : IsSqrt sq) (o : Obj K) (tol : K) (us vs : List K)
+    (above : ASpec) (tensor : Bool) (hd : o.dimension = 3)
+    (hlen : ¬ ((!tensor) = true ∧ us.length ≠ vs.length)) (du dv : Tensor K)
+    (h : o.tangent tol [us, vs] none above tensor = .ok [du, dv])
+    (hsh : dv.shape = du.shape) (h3 : du.shape.getLastD 1 = 3) :
+    o.surfaceNormalRaw tol us vs above tensor = .ok (Tensor.crossRows du dv) ∧
+    o.surfaceNormalUnit sq tol us vs above tensor =
+      .ok (Tensor.normalizeRows sq (Tensor.crossRows (Tensor.normalizeRows sq du) (Tensor.normalizeRows sq dv))) ∧
+    ∀ pI c, pI < du.size / 3 → c < 3 → 0 < du.nsq3 pI → 0 < dv.nsq3 pI →
+      0 < (Tensor.crossRows du dv).nsq3 pI →
+      (Tensor.normalizeRows sq (Tensor.crossRows (Tensor.normalizeRows sq du)
+          (Tensor.normalizeRows sq dv))).row3 pI c =
+        (Tensor.crossRows du dv).row3 pI c / sq ((Tensor.crossRows du dv).nsq3 pI) ∧
+      (Tensor.normSqRows (Tensor.crossRows du dv)).getD pI 0 = (Tensor.crossRows du dv).nsq3 pI := by
+  refine ⟨?_, ?_, ?_⟩
+  · unfold Obj.surfaceNormalRaw
+    rw [if_neg hlen, if_neg (by rw [hd]; decide), if_pos hd, h]
+    rfl
+  · unfold Obj.surfaceNormalUnit Obj.tangentUnit
+    rw [if_neg hlen, if_pos hd, h]
+    rfl
+  · intro pI c hp hc hnu hnv hnx
+    have hpx : pI < (Tensor.crossRows du dv).size / 3 := by
+      rw [Tensor.size_of_shape_eq (Tensor.crossRows_shape _ _)]; exact hp
+    refine ⟨?_, Tensor.normSqRows_getD3 _ (by rw [Tensor.crossRows_shape]; exact h3) hpx⟩
+    rw [Tensor.normalize_cross_normalized hsq du dv hsh h3 hp hc hnu hnv hnx,
+      Tensor.normalizeRows_row3 sq _ (by rw [Tensor.crossRows_shape]; exact h3) hpx hc]
+
+/-- **`Curve.binormal`** is by definition the normalised `dx × ddx` (`curveBinormalRaw`, what `c03_binormal`
+sends), so its rows are unit vectors, positive multiples of the raw rows. -/
+theorem C03_curve_binormal_unit {sq : K → K} (hsq : IsSqrt sq) (o : Obj K) (tol : K) (ts : List K)
+    (above : ASpec) (b : Tensor K) (h : o.curveBinormalRaw tol ts above = .ok b) :
+    o.curveBinormalUnit sq tol ts above = .ok (Tensor.normalizeRows sq b) ∧
+    (b.shape.getLastD 1 = 3 → ∀ pI, pI < b.size / 3 → 0 < b.nsq3 pI →
+      ∃ s, 0 < s ∧ s * s = b.nsq3 pI ∧
+        (∀ c, c < 3 → (Tensor.normalizeRows sq b).row3 pI c = b.row3 pI c / s) ∧
+        (Tensor.normalizeRows sq b).nsq3 pI = 1) := by
+  constructor
+  · unfold Obj.curveBinormalUnit; rw [h]; rfl
+  · intro h3 pI hp hn
+    exact Tensor.normalizeRows_unit hsq b h3 hp hn
+
+/-- **`Curve.normal`** = `np.cross(B, T)` of the normalised binormal and tangent.  With `v` the un-normalised
+tangent and `b = v × a` the un-normalised binormal, row by row it is the normalised `b × v`, which is what
+`c03_cnormal` sends (`curveNormalRaw`) divided by the square root of the squared norm sent along (Lagrange:
+`‖b × v‖ = ‖b‖‖v‖` because `b ⟂ v`). -/
+theorem C03_curve_normal_unit {sq : K → K} (hsq : IsSqrt sq) (o : Obj K) (tol : K) (ts : List K)
+    (above : ASpec) (hd : o.dimension = 3) (v a : Tensor K)
+    (hv : o.tangent tol [ts] none above true = .ok [v])
+    (hb : o.curveBinormalRaw tol ts above = .ok (Tensor.crossRows v a))
+    (hsh : a.shape = v.shape) (h3 : v.shape.getLastD 1 = 3) :
+    o.curveNormalRaw tol ts above = .ok (Tensor.crossRows (Tensor.crossRows v a) v) ∧
+    o.curveNormalUnit sq tol ts above =
+      .ok (Tensor.crossRows (Tensor.normalizeRows sq (Tensor.crossRows v a)) (Tensor.normalizeRows sq v)) ∧
+    ∀ pI c, pI < v.size / 3 → c < 3 → 0 < v.nsq3 pI → 0 < (Tensor.crossRows v a).nsq3 pI →
+      (Tensor.crossRows (Tensor.normalizeRows sq (Tensor.crossRows v a))
+          (Tensor.normalizeRows sq v)).row3 pI c =
+        (Tensor.crossRows (Tensor.crossRows v a) v).row3 pI c /
+          sq ((Tensor.crossRows (Tensor.crossRows v a) v).nsq3 pI) := by
+  refine ⟨?_, ?_, ?_⟩
+  · unfold Obj.curveNormalRaw
+    rw [if_neg (by rw [hd]; decide), hv, hb]
+    rfl
+  · unfold Obj.curveNormalUnit Obj.tangentUnit Obj.curveBinormalUnit
+    rw [if_neg (by rw [hd]; decide), hv, hb]
+    rfl
+  · intro pI c hp hc hnv hnb
+    have hpb : pI < (Tensor.crossRows (Tensor.crossRows v a) v).size / 3 := by
+      rw [Tensor.size_of_shape_eq (Tensor.crossRows_shape _ _),
+        Tensor.size_of_shape_eq (Tensor.crossRows_shape _ _)]; exact hp
+    rw [Tensor.cross_normalized_binormal_tangent hsq v a hsh h3 hp hc hnv hnb,
+      Tensor.normalizeRows_row3 sq _ (by rw [Tensor.crossRows_shape, Tensor.crossRows_shape]; exact h3) hpb hc]
+
+/-- The un-normalised binormal the model computes IS `v × a'` with `v` the un-normalised tangent
+(`derivative(d=1)`) and `a'` the acceleration with the code's replacement of a vanishing one — the hypothesis `hb`
+of `C03_curve_normal_unit`. -/
+theorem C03_curve_binormal_raw (o : Obj K) (tol : K) (ts : List K) (above : ASpec) (hd : o.dimension = 3)
+    (hp : o.pardim = 1) (v a : Tensor K)
+    (hv : o.tangent tol [ts] none above true = .ok [v])
+    (ha : o.derivativeCall tol [ts] (.int 2) above true = .ok a) :
+    o.curveBinormalRaw tol ts above = .ok (Tensor.crossRows v (Obj.fixedAcc v a ts.length)) := by
+  have h1 : o.derivativeCall tol [ts] (.int 1) above true = .ok v := by
+    have ht := (C03_tangent_is_first_derivative o tol ts ts above true).1 hp
+    have hc := C03_derivativeCall_curve o tol ts (.int 1) [1] above true (by simp [meaning])
+    rw [if_neg (by simp)] at hc
+    rw [hc, ← ht]
+    unfold Obj.tangent at hv
+    simp only [hp, if_true] at hv
+    rw [if_neg (by omega)] at hv
+    cases hq : o.tangentRaw tol [ts] 0 above true with
+    | error e => rw [hq] at hv; cases hv
+    | ok w =>
+      rw [hq] at hv
+      have : [w] = [v] := by simpa [bind, Except.bind, pure, Except.pure] using hv
+      rw [List.cons.injEq] at this
+      rw [this.1]
+  unfold Obj.curveBinormalRaw
+  rw [if_neg (by rw [hd]; decide), h1, ha]
+  rfl
+
+end frame
+
 /-- **Normalisation algebra** used by `tangent` / `normal` (stated with `s² = ‖v‖²`, no square roots):
 dividing a vector by `s` with `s² = ‖v‖²`, `s ≠ 0` gives a unit vector; the cross product of two rescaled
 vectors is the rescaled cross product (so `normal` = normalised `∂u × ∂v`, and the model's un-normalised
@@ -1455,7 +1869,7 @@ example : ∃ o', C02_exCurve.getDerivativeSpline (1/1000) 0 = .ok o' ∧
   obtain ⟨o', h1, h2⟩ := C03_derivative_spline_obj_curve (o := C02_exCurve) rfl C01_exOpen_valid
     C03_exOpen_ready (nc := 2) rfl rfl (tol := 1/1000) (by norm_num)
   exact ⟨o', h1, fun tensor =>
-    h2 [1/2, 3] (fun u hu => ⟨C02_exOpen_adm u hu, fun h => absurd h (by decide)⟩) tensor⟩
+    h2 [1/2, 3] (fun u hu => ⟨C02_exOpen_adm u hu, fun h => absurd h (by decide)⟩) (by simp) tensor⟩
 
 /-- Periodic curve (`C02_exCurvePer`, `C⁰` seam): the derivative spline is no longer periodic and agrees with
 `derivative` at `1/2`. -/
@@ -1465,7 +1879,7 @@ example : ∃ o', C02_exCurvePer.getDerivativeSpline (1/1000) 0 = .ok o' ∧
       ∀ i c, i < 1 → c < 2 → rv.get (i * 2 + c) = rd.get (i * 2 + c) := by
   obtain ⟨o', h1, h2⟩ := C03_derivative_spline_obj_curve (o := C02_exCurvePer) rfl C01_exPer_valid
     C03_exPer_ready (nc := 2) rfl rfl (tol := 1/1000) (by norm_num)
-  refine ⟨o', h1, h2 [1/2] ?_ true⟩
+  refine ⟨o', h1, h2 [1/2] ?_ (by simp) true⟩
   intro u hu
   simp only [List.mem_cons, List.not_mem_nil, or_false] at hu
   subst hu
@@ -1485,7 +1899,7 @@ example : ∃ o', C02_exSurf.getDerivativeSpline (1/1000) 1 = .ok o' ∧
   obtain ⟨o', h1, h2⟩ := C03_derivative_spline_obj_surface_v (o := C02_exSurf) rfl C02_exLin_valid
     C02_exLin_valid C03_exLin_ready (nc := 3) rfl rfl (tol := 1/1000) (by norm_num)
   exact ⟨o', h1, (h2 [1/2, 1] [1/2, 1] C02_exLin_adm
-    (fun v hv => ⟨C02_exLin_adm v hv, fun h => absurd h (by decide)⟩)).2 rfl⟩
+    (fun v hv => ⟨C02_exLin_adm v hv, fun h => absurd h (by decide)⟩) (by simp) (by simp)).2 rfl⟩
 
 /-- Volume (`C02_exVol`), third direction. -/
 example : ∃ o', C02_exVol.getDerivativeSpline (1/1000) 2 = .ok o' ∧
@@ -1498,4 +1912,65 @@ example : ∃ o', C02_exVol.getDerivativeSpline (1/1000) 2 = .ok o' ∧
     C02_exLin_valid C02_exLin_valid C03_exLin_ready (nc := 1) rfl rfl (tol := 1/1000) (by norm_num)
   exact ⟨o', h1, (h2 [1/2, 1] [1/2] [1/2, 1] C02_exLin_adm
     (fun v hv => C02_exLin_adm v (by simp at hv ⊢; left; exact hv))
-    (fun w hw => ⟨C02_exLin_adm w hw, fun h => absurd h (by decide)⟩)).1⟩
+    (fun w hw => ⟨C02_exLin_adm w hw, fun h => absurd h (by decide)⟩) (by simp) (by simp) (by simp)).1⟩
+
+/-! ### An instance of the real-analysis theorems: a concrete rational curve over ℝ -/
+
+/-- Linear basis `[0,0,1,1]` over ℝ. -/
+noncomputable def C03_exLinR : Basis ℝ := ⟨2, #[0, 0, 1, 1], -1⟩
+
+/-- Rational line segment over ℝ: control points `(0,0)` (weight 1) and `(1,1)` (weight 2), stored premultiplied. -/
+noncomputable def C03_exCurveRatR : Obj ℝ := ⟨#[C03_exLinR], ⟨[2, 3], #[0, 0, 1, 2, 2, 2]⟩, true⟩
+
+theorem C03_exLinR_valid : C03_exLinR.Valid where
+  order_pos := by decide
+  size_ge := by decide
+  sorted := by
+    intro i hi
+    have hi' : i + 1 < 4 := hi
+    have hi'' : i < 3 := by omega
+    interval_cases i <;> norm_num [Basis.kn, C03_exLinR]
+  periodic_ge := by decide
+  periodic_le := by decide
+  start_lt_stop := by norm_num [Basis.start, Basis.stop, Basis.kn, C03_exLinR]
+  ghosts := fun h => absurd h (by decide)
+
+theorem C03_exLinR_adm : C03_exLinR.Admissible (1/1000) (1/2) := by
+  refine ⟨?_, fun _ => ?_, fun h => absurd h (by decide)⟩
+  · intro i hi
+    have hi' : i < 4 := hi
+    interval_cases i <;> norm_num [Basis.kn, C03_exLinR, abs_of_nonneg, abs_of_neg]
+  · norm_num [Basis.start, Basis.stop, Basis.kn, C03_exLinR]
+
+/-- `C03_rational_curve_real` / `_iterated` / `_real_any` apply to the concrete curve at `t₀ = 1/2` from the right:
+`derivative(1/2, d)` for `d = 1,2,3` ARE the first three right derivatives of `t ↦ (2t)/(1+t)` (component 0). -/
+example :
+    let x : ℝ → ℝ := fun t =>
+      splineDeriv (effSide C03_exLinR (1/2) true) C03_exLinR.kn 1 2
+        (fun j => C03_exCurveRatR.cps.get (j * 3 + 0)) 0 t /
+      splineDeriv (effSide C03_exLinR (1/2) true) C03_exLinR.kn 1 2
+        (fun j => C03_exCurveRatR.cps.get (j * 3 + 2)) 0 t
+    (∃ r, C03_exCurveRatR.derivativeGeneric (1/1000) [[1/2]] [1] [true] true = .ok r ∧
+      iteratedDerivWithin 1 x (sideSet (effSide C03_exLinR (1/2) true) (1/2)) (1/2) = r.get 0) ∧
+    iteratedDerivWithin 2 x (sideSet (effSide C03_exLinR (1/2) true) (1/2)) (1/2) =
+      (C03_exCurveRatR.curveDerivativeRational (1/1000) [1/2] 2 true).get 0 ∧
+    iteratedDerivWithin 3 x (sideSet (effSide C03_exLinR (1/2) true) (1/2)) (1/2) =
+      (C03_exCurveRatR.curveDerivativeRational (1/1000) [1/2] 3 true).get 0 := by
+  have hW : splineDeriv (effSide C03_exLinR (1/2) true) C03_exLinR.kn (C03_exLinR.order - 1)
+      C03_exLinR.numFunctions (fun j => C03_exCurveRatR.cps.get (j * (2 + 1) + 2)) 0 (1/2) ≠ 0 := by
+    have hs : effSide C03_exLinR (1/2) true = .right := by
+      unfold effSide
+      rw [if_neg (by norm_num [Basis.stop, Basis.kn, C03_exLinR])]
+      rfl
+    rw [hs]
+    norm_num [splineDeriv, dB, B, ind, Basis.kn, Basis.numFunctions, C03_exLinR, C03_exCurveRatR,
+      Tensor.get, Finset.sum_range_succ]
+  exact C03_rational_curve_iterated (o := C03_exCurveRatR) rfl C03_exLinR_valid rfl (dim := 2) rfl rfl
+    (tol := 1/1000) (by norm_num) (1/2) C03_exLinR_adm true (by simp) (c := 0) (by norm_num) hW
+
+/-- The square-root parameter of the frame theorems is satisfiable: `Real.sqrt` is the positive square root. -/
+example : IsSqrt Real.sqrt := fun x hx => ⟨Real.sqrt_pos.mpr hx, Real.mul_self_sqrt hx.le⟩
+
+/-- … and `C03_surface_normal_unit` applies over ℝ with it. -/
+example (o : Obj ℝ) := C03_surface_normal_unit (sq := Real.sqrt)
+  (fun x hx => ⟨Real.sqrt_pos.mpr hx, Real.mul_self_sqrt hx.le⟩) o
